@@ -49,6 +49,8 @@ type Contract struct {
 type AfterClause struct {
 	Match  string
 	Before bool
+	Assert bool // ghost assertion (proved, then assumed) instead of an assignment
+	Label  string
 	Var    string
 	Expr  ast.Expr
 	Text  string
@@ -330,6 +332,20 @@ func ParseSpecFile(path, pkgName, pkgPath string, sf *SpecFile) error {
 			}
 			match := rest[q1+1 : q1+1+q2]
 			tail := strings.TrimSpace(rest[q1+q2+2:])
+			if strings.HasPrefix(tail, "assert") {
+				text := strings.TrimSpace(strings.TrimPrefix(tail, "assert"))
+				lbl := ""
+				if m := labelRe.FindStringSubmatch(text); m != nil {
+					lbl = m[1]
+					text = text[len(m[0]):]
+				}
+				e, err := parseSpecExpr(text, path, rc.line)
+				if err != nil {
+					return err
+				}
+				cur.After = append(cur.After, &AfterClause{Match: match, Before: kw == "before", Assert: true, Label: lbl, Expr: e, Text: text, Line: rc.line})
+				break
+			}
 			tail = strings.TrimSpace(strings.TrimPrefix(tail, "set"))
 			eqi := strings.Index(tail, "=")
 			if eqi < 0 {
